@@ -49,10 +49,12 @@ CLAIMED = {
          'on two tick schedules per world (planes exactly on grids incl. dyadic coordinates, '
          'a hair before/after, different step): non-negative increments, additivity, closed '
          'forms per region/component (constant worlds), every grid crossed by exactly one '
-         'loss increment in the recorded history, equality between the two schedules.'),
+         'loss increment in the recorded history, equality between the two schedules; history '
+         'step: each swept assembly with a grid is cloned at another flow rate and set up again, '
+         'its loss coefficient must be the correlation at its own Reynolds number.'),
    design_ref='DESIGN.md section 3, C14',
    note='Closed forms asserted in constant-property worlds only; user-power inputs only.',
-   technique='deterministic simulation: tick scheduler vs grid timers (exactly-once) + closed-form ledger + step twin'),
+   technique='deterministic simulation: tick scheduler vs grid timers (exactly-once) + closed-form ledger + step twin + re-clone history step'),
  'C15': dict(
    category='exploration',
    text=('Seeded search over worlds whose peaks fall at the bottom/middle/top/ties and '
